@@ -173,6 +173,15 @@ pub enum LabelStyle {
 }
 
 pub fn gen_text_label(rng: &mut Rng, style: LabelStyle) -> Vec<u8> {
+    // words of the master-file syntax used as labels: a label is data wherever the grammar expects a name
+    if rng.chance(1, 14) {
+        let words: &[&[u8]] = if style == LabelStyle::Hostile {
+            &[b"$origin", b"$include", b"$ttl", b"$", b"in", b"ch", b"a", b"ns", b"soa", b"cname", b"txt", b"mx", b"300", b"0", b"@", b"any"]
+        } else {
+            &[b"in", b"ch", b"a", b"ns", b"soa", b"cname", b"txt", b"mx", b"aaaa", b"300", b"0", b"any", b"origin", b"include"]
+        };
+        return rng.pick(words).to_vec();
+    }
     let len = match rng.below(12) {
         0 => rng.range(10, 30),
         1 => 63,
@@ -726,7 +735,22 @@ impl<'a> Renderer<'a> {
                 // line break inside the parentheses, optionally after a comment
                 if self.rng.chance(1, 3) {
                     self.features.insert("layout:comment-inside-parentheses");
-                    line.push_str(" ; inside )");
+                    match self.rng.range(0, 3) {
+                        0 => line.push_str(" ; inside )"),
+                        1 => {
+                            // no blank between the token and the comment character: the comment ends the token
+                            self.features.insert("layout:comment-directly-after-token-inside-parentheses");
+                            line.push_str(";tight ( \" 7 )");
+                        }
+                        2 => {
+                            self.features.insert("layout:comment-directly-after-token-inside-parentheses");
+                            line.push(';');
+                        }
+                        _ => {
+                            line.push_str(" ;");
+                            line.push_str(&comment_text(&mut self.rng));
+                        }
+                    }
                 }
                 line.push('\n');
                 if self.rng.bool() {
